@@ -1111,6 +1111,26 @@ class _FnScope(dict):
         return self.outer[k]
 
 
+def const_strings(fn, fenv):
+    """values of the maximal constant string expressions written in a function (`"a" "b"`, `"a" + "b"`, `"%s" % "a"`
+    count once, as their value); the docstring is not one of them"""
+    out = []
+
+    def visit(node):
+        if isinstance(node, ast.expr) and not isinstance(node, (ast.Name, ast.Attribute)) \
+                and any(isinstance(x, ast.Constant) and isinstance(x.value, str) for x in ast.walk(node)):
+            ok, v = fenv.try_const(node)
+            if ok and isinstance(v, str):
+                out.append(v)
+                return
+        for c in ast.iter_child_nodes(node):
+            visit(c)
+
+    for st in body_without_docstring(fn):
+        visit(st)
+    return out
+
+
 def linear(node, fenv, bindings=None):
     """integer linear form of an expression: ({atom source: coefficient}, constant).
     Atoms are whatever is not +,-,unary -, a constant, or a local assigned once (looked through)."""
